@@ -2155,6 +2155,8 @@ class Walker:
                     return mk_ext("min", [a, b])
             if c[0] == "const" and isinstance(c[1], bool):
                 return a if c[1] else b
+            if a == b:
+                return a
             return nan_identity(("sel", c, a, b))
         if isinstance(e, ast.Tuple):
             return ("tuple", tuple(self.ev(x, env) for x in e.elts))
